@@ -311,7 +311,7 @@ def run_shard(spec, tier, seed, budget_s):
     i = spec['shard']
     rng = random.Random(f'{seed}-c16-{i}')
     k = 0
-    target = {'quick': 25, 'thorough': 900}[tier]
+    target = {'quick': 100, 'thorough': 1500}[tier]
     with monitors.WriteTracer(keep_ids=True) as tracer:
         while k < target and not sh.out_of_time():
             k += 1
